@@ -48,10 +48,10 @@ def _discover():
     try:
         pm, dm = loader.module(PPTX), loader.module(DOCX)
         top = lambda m: {q: f for q, f in m.functions.items() if "." not in q}
-        pc = [q for q, f in top(pm).items() if _calls(f, "omml_to_latex")]
+        pc = [q for q, f in top(pm).items() if B.converter_calls(pm, f)]
         if names["pptx"] not in pc and len(pc) == 1:
             names["pptx"] = pc[0]
-        dc = {q: f for q, f in top(dm).items() if _calls(f, "omml_to_latex")}
+        dc = {q: f for q, f in top(dm).items() if B.converter_calls(dm, f)}
         rec = [q for q, f in dc.items() if _calls(f, q)]
         rec_ = [q for q in rec]
         if names["pte"] not in dc and len(rec_) == 1:
@@ -326,7 +326,11 @@ class SiteExecutor(B.C19Executor):
         return super().get_index(st, base, idx, node)
 
     def converts(self, nodes):
-        return any(_calls(b, "omml_to_latex") for b in nodes)
+        try:
+            cm = loader.module(self.contract.target.split("::")[0])
+        except Exception:  # noqa
+            return any(_calls(b, "omml_to_latex") for b in nodes)
+        return any(B.converter_calls(cm, b) for b in nodes)
 
     def e_Dict(self, n, st):
         if self.site_mode() and not n.keys:
